@@ -74,6 +74,14 @@ CLAIMED = {
          "Direct comparison of AES key expansion (both schedules), CMAC sub-keys and XCBC keys with from-the-standard implementations (computed S-box) for random and structured keys; HMAC-MD5 long-key refusal; indirectly every reference-checked job consumes helper output (ipad/opad incl. hashed long keys, GCM/GHASH tables, DES, SM4 schedules) and on alternate variants another variant's helpers prepare the keys (interchange).",
          "KASUMI/SNOW3G schedules and 3GPP IV generators only through jobs without independent reference",
          "differential testing against from-the-standard key material (exploration)", "5 C11"),
+ "C09": ("model_checking",
+         "Same work item through every entry point: synchronous cipher/hash/AEAD bursts (sizes below/at/above every lane count, distinct data, unequal lengths) and direct functions (GCM one-shot, GHASH, SHA, ZUC/SNOW3G/KASUMI 1..N buffer, CRCs, single-block CFB) against the job API, judged by spec/Trace_Entry.tla; asynchronous burst and no-check submit inside mixed schedules against the checked single-job call, judged by Trace_ImbMgr (run-alone oracle conjunct). The interaction of synchronous bursts with parked asynchronous jobs is a recorded known finding.",
+         "QUIC helpers, HEC, SHA one-block and fixed-arity wireless calls not covered; known finding KF-2",
+         "TLA+ trace validation of cross-entry-point differential runs", "5 C09"),
+ "C13": ("exploration",
+         "Trampoline scrubs registers/dead stack before and dumps them after every call; in every quiescent state (established by the ring model during trace validation) registers, dead stack and the whole manager block are searched for 16-byte windows of keys, derived key material and plaintext of the jobs completed since the last quiescent state; the residue counts are conjuncts of the trace specification; a hit must repeat with fresh secrets. Sensitivity shown by a SAFE_DATA=OFF build (hundreds of hits).",
+         "key-preparation helpers only via consuming jobs; low-entropy secrets not searched",
+         "register/stack/manager residue scan in model-established quiescent states", "5 C13"),
 }
 
 NA = {
